@@ -639,6 +639,41 @@ def run_decode(mask, rot):
 
 
 # -- plan / unit / replay -----------------------------------------------------------------------------------------
+IP_HOSTS = [('127.0.0.1', True), ('127.0.0.2', True), ('127.0.1.1', True), ('127.255.255.254', True), ('::1', True),
+            ('10.0.0.1', False), ('128.0.0.1', False), ('126.255.255.255', False), ('192.168.127.1', False), ('1.127.0.1', False),
+            ('::2', False), ('fe80::1', False), ('2001:db8::127', False)]
+
+
+def run_ipfaces():
+    """the command scope follows the face: a TCP / UDP face to any loopback address is local (commands under /localhost), any other is not
+    (/localhop) - both command formats"""
+    import ipaddress
+    from ndn.transport.stream_face import TcpFace
+    from ndn.transport.udp_face import UdpFace
+    from ndn.app_support import nfd_mgmt
+    viol = []
+    for host, want in IP_HOSTS:
+        assert ipaddress.ip_address(host).is_loopback == want
+        for cls in (TcpFace, UdpFace):
+            face = cls(host, 6363)
+            try:
+                got = face.isLocalFace()
+                name = nfd_mgmt.make_command_v2('rib', 'register', face, name='/p')
+                scope = bytes(name[0])[2:].decode()
+                old = nfd_mgmt.make_command('rib', 'register', face, name='/p') if hasattr(nfd_mgmt, 'make_command') else None
+                scope_old = bytes(enc.Name.normalize(old)[0])[2:].decode() if old is not None else None
+            except Exception as e:  # noqa
+                viol.append((f'C17|ipface|raises:{type(e).__name__}', f'{cls.__name__}({host!r}): {e!r}'))
+                continue
+            exp_scope = 'localhost' if want else 'localhop'
+            if bool(got) != want:
+                viol.append((f'C17|ipface|isLocalFace|expected={want}', f'{cls.__name__}({host!r}).isLocalFace() = {got}'))
+            if scope != exp_scope or (scope_old is not None and scope_old != exp_scope):
+                viol.append((f'C17|ipface|command-scope|expected={exp_scope}', f'{cls.__name__}({host!r}): commands under /{scope} (signed-Interest format) '
+                                                                               f'and /{scope_old} (command-Interest format)'))
+    return viol
+
+
 def plan(tier, seed):
     d = 1 if tier == 'quick' else 2
     units = []
@@ -653,6 +688,7 @@ def plan(tier, seed):
     for fe in ('v2', 'legacy'):
         units.append({'kind': 'routes', 'fe': fe})
         units.append({'kind': 'two-loops', 'fe': fe})
+    units.append({'kind': 'ipfaces'})
     for lo in range(0, 65536, 4096):
         units.append({'kind': 'decode', 'lo': lo, 'hi': lo + 4096})
     return {
@@ -746,6 +782,17 @@ def unit(arg):
             for sig, what in viol:
                 acc.violation(sig, what, {'kind': 'typed', 'cls': cname, 'field': fname, 'value': v})
         acc.sample({'typed_fields': sorted({f'{c}.{f}' for c, f, _, _, _ in typed_field_cases()})})
+    elif arg['kind'] == 'ipfaces':
+        v = run_ipfaces()
+        acc.evaluations += 2 * len(IP_HOSTS)
+        acc.nontrivial += 2 * len(IP_HOSTS)
+        acc.transitions += 6 * len(IP_HOSTS)
+        acc.state('ipfaces')
+        acc.outcome(f"ipfaces|{'ok' if not v else 'viol'}")
+        acc.observe(['ipfaces', [x[0] for x in v]])
+        for sig, what in v:
+            acc.violation(sig, what, {'kind': 'ipfaces'})
+        acc.sample({'hosts': [h for h, _ in IP_HOSTS]})
     elif arg['kind'] == 'two-loops':
         v = run_two_loops(arg['fe'])
         acc.evaluations += 1
@@ -785,6 +832,8 @@ def unit(arg):
 
 
 def replay(case):
+    if case['kind'] == 'ipfaces':
+        return [{'sig': s, 'what': w} for s, w in run_ipfaces()]
     if case['kind'] == 'two-loops':
         return [{'sig': s, 'what': w} for s, w in run_two_loops(case['fe'])]
     if case['kind'] == 'typed':
